@@ -113,7 +113,7 @@ def there_follows(ctx):
     return _emit(d)
 
 
-@rule("PARSE-DISPATCH", ["C07", "C17", "C09", "C11", "C12", "C19"], floor=14)
+@rule("PARSE-DISPATCH", ["C07", "C17", "C09", "C11", "C12", "C19", "C01"], floor=14)
 def parse_dispatch(ctx):
     """parse_terminal dispatch table: $ ^ -> Eol/Bol under XPath (else atom); . -> class; [ -> class expression;
     ( -> group; ) ] ? + { * -> Error::Syntax; \\ -> escape (back-reference / class / literal); anything else an atom."""
@@ -183,11 +183,11 @@ def parse_dispatch(ctx):
     scope = {"class": ["C09", "C11"], "dot": ["C12"], "anchor": ["C12"], "escape": ["C19", "C09"]}
     for i_ in out:
         extra_p = next((v for k, v in scope.items() if i_.key == k or i_.key.startswith(k + "|")), [])
-        i_.props = ["C07", "C17"] + extra_p
+        i_.props = ["C07", "C17", "C01"] + extra_p
     return out
 
 
-@rule("PARSE-GROUP", ["C07", "C03", "C19", "C17"], floor=8)
+@rule("PARSE-GROUP", ["C07", "C03", "C19", "C17", "C01"], floor=8)
 def parse_group(ctx):
     """parse_expr: a capturing group takes its number from the counter at its opening parenthesis (pre-order),
     the counter is incremented before the contents are parsed, ')' must close it (else Error::Syntax), and only then
@@ -295,7 +295,7 @@ def _top_pair(s):
     return None
 
 
-@rule("PARSE-BRACKET", ["C07", "C20"], floor=6)
+@rule("PARSE-BRACKET", ["C07", "C20", "C01"], floor=6)
 def parse_bracket(ctx):
     """bracket(): {m} -> (m,m); {m,} -> (m,MAX); {m,n} -> (m,n) only if n >= m; every success consumed the closing
     '}'; numbers come from str::parse::<usize> with Error::Syntax on failure; everything else is Error::Syntax."""
@@ -498,7 +498,7 @@ def reject_floors(ctx):
     return out
 
 
-@rule("SEQ-FLATTEN", ["C20"], floor=4)
+@rule("SEQ-FLATTEN", ["C20", "C01"], floor=4)
 def seq_flatten(ctx):
     """make_sequence(o1, o2) concatenates: ops(o1) ++ ops(o2) in all four arms (a Sequence contributes its
     operations, anything else itself)."""
